@@ -62,6 +62,10 @@ def run(ctx):
             for v in mon["viols"]:
                 e = events[v["l"] - 1]
                 ctx.report("%s [%s] %s" % (v["why"], name, {k: e[k] for k in e if k not in ("seq", "us", "tree")}), replay_src=t, tag="run", key=v["why"])
+    # the limiter table's bound with many penalised hosts (more hosts than the origin server can offer)
+    from c13 import manager_table
+    ctx.build_harness(("unit-verif",))
+    manager_table(ctx, quick, ("exceeds its bound",))
     ctx.cov.update({
         "states": r.distinct, "transitions": r.generated, "exhaustive": True,
         "traces_validated_against_impl": len(traces),
